@@ -6,7 +6,7 @@ batch, root, prefix = int(sys.argv[1]), sys.argv[2], sys.argv[3]
 notes = json.load(open(os.path.join(root, 'NOTES.json'))) if os.path.exists(os.path.join(root, 'NOTES.json')) else {}
 here = os.path.join(os.path.dirname(os.path.abspath(__file__)), '..', 'seeded')
 rows = []
-for pid in sorted(os.listdir(root)):
+for pid in [p for p in sorted(os.listdir(root)) if p in os.environ.get('ONLY','').split(',') or not os.environ.get('ONLY')]:
     if not re.fullmatch(r'C\d\d', pid):
         continue
     log = open(prefix + pid + '.log').read().split('\n')
@@ -15,7 +15,7 @@ for pid in sorted(os.listdir(root)):
         src = os.path.join(root, pid, f'm{k}')
         conf = next((l for l in log if l.startswith(f'CONFIRM {src} ')), None)
         tri = [i for i, l in enumerate(log) if l.startswith(f'TRY {pid} {src} ')]
-        if conf is None or not tri or 'demo_clean_rc=0 demo_mutant_rc=1 tests_rc=0' not in conf:
+        if not os.path.exists(os.path.join(src, 'meta.json')) or conf is None or not tri or 'demo_clean_rc=0 demo_mutant_rc=1 tests_rc=0' not in conf:
             print('SKIP (not confirmed)', src)
             continue
         viol = [l.strip() for l in log[tri[0] + 1: tri[0] + 5] if l.startswith('  violated')]
